@@ -296,6 +296,10 @@ def body():
                     {"line": {k: (v if len(str(v)) < 300 else str(v)[:300]) for k, v in line.items()}, "event": ev})
     for key, line, ev in meta[:2]:
         c.sample({"key": key, "event": {k: (v if not isinstance(v, list) or len(v) < 40 else "<%d bytes>" % len(v)) for k, v in ev.items()}})
+    # the command line tools as a user's session (tools/clilib.py, spec/Cli.tla): artefacts made by one tool, opened by another under right and wrong circumstances;
+    # the exit status is what a script sees
+    import clilib
+    clilib.judge_sessions(c, clilib.sessions(c, "C02", ['sm2enc'], "c02", [0, 1, 16, 4095, 4096, 4097, 10000] + ([] if c.quick else [8192, 65537, 1000000])), "c02")
     return c.finish(
         rule="encryption: 6 interfaces x plaintext lengths (quick: 26 lengths, thorough: all 1..255), every produced ciphertext judged by TLC and decrypted back through the decryption interfaces; "
              "decryption: reference-made ciphertexts (interoperability), 17 encoding forms, 8 C1 classes, C3/C2 modifications, |C2| = 255/256, bit flips; ECDH: key pairs both ways, peer classes; "
